@@ -1,4 +1,5 @@
 import QR.Proofs.Stream
+import QR.Proofs.SourceTie
 /-
 C06 - the data codewords of every symbol form a conformant ISO bit stream.
 Model side: `Model.dataBits` mirrors util.create_data (headers through BitBuffer.put, QRData.write, terminator, bit padding,
@@ -64,5 +65,27 @@ example : (∀ s ∈ ([⟨1, [49, 50, 51, 52]⟩, ⟨2, [65, 32, 66]⟩, ⟨4, [
   · left; exact ⟨rfl, by decide⟩
   · right; left; exact ⟨rfl, by decide⟩
   · right; right; exact ⟨rfl, by decide⟩
+
+/-! ### tie to the source: the model's expressions are the ones translated from the current Python AST (T2) -/
+
+/-- version-class boundaries of `mode_sizes_for_version` as they stand in the source -/
+theorem C06_source_class (v : Nat) : Gen.Code.mode_size_class v = Model.sizeClass v := QR.SourceTie.sizeClass_eq v
+
+/-- `create_data` with the overflow test, terminator length and pad alternation translated from the source -/
+theorem C06_source_create_data (version level : Nat) (segs : List Seg) :
+    dataBits version level segs = (do
+      let buffer ← segsBits (fun m => lengthInBits m version) segs
+      let blocks ← rsBlocks version level
+      let bitLimit := (blocks.map fun b => b.2 * 8).sum
+      if Gen.Code.overflow_test buffer.length bitLimit then .error .dataOverflow
+      else
+        let buffer := buffer ++ List.replicate (Gen.Code.terminator_len buffer.length bitLimit) false
+        let delimit := buffer.length % 8
+        let buffer := if delimit ≠ 0 then buffer ++ List.replicate (8 - delimit) false else buffer
+        let bytesToFill := (bitLimit - buffer.length) / 8
+        pure (buffer ++ padBytes bytesToFill)) ∧
+    (∀ n, padBytes n = (List.range n).flatMap fun i => bitsBE (if Gen.Code.pad_first i then Gen.PAD0 else Gen.PAD1) 8) ∧
+    Gen.Code.pad_names = ("PAD0", "PAD1") :=
+  ⟨QR.SourceTie.dataBits_eq version level segs, QR.SourceTie.padBytes_eq, QR.SourceTie.createData_pieces.2.2.2⟩
 
 end QR.Props
